@@ -63,3 +63,15 @@ Fixpoint go_mdel (m : list (string * Z)) (k : string) : list (string * Z) :=
   | [] => []
   | (k', v) :: r => if String.eqb k' k then go_mdel r k else (k', v) :: go_mdel r k
   end.
+
+(* s[i] of a string: the byte as an integer (0 beyond the end: a run-time panic in Go, not modelled) *)
+Fixpoint go_sbyte_nat (s : string) (n : nat) : Z :=
+  match s with
+  | EmptyString => 0%Z
+  | String c r => match n with O => Z.of_nat (nat_of_ascii c) | S n' => go_sbyte_nat r n' end
+  end.
+Definition go_sbyte (s : string) (i : Z) : Z := go_sbyte_nat s (Z.to_nat i).
+
+(* what a Validate method reports into its *ValidationResults: AddError / AddWarning / AddTimeCheck, in order;
+   the texts are not kept *)
+Inductive go_issue := GoError | GoWarning | GoTimeCheck.
